@@ -4,7 +4,7 @@ import AaVerif.Flags
 import AaVerif.Filter
 import AaVerif.Generated.Dists
 import AaVerif.Generated.AaTables
-import AaVerif.Aa.Wire
+import AaVerif.Aa.Order
 import AaVerif.Logs
 import AaVerif.Layout
 import AaVerif.Prep
@@ -97,6 +97,22 @@ def suiteMerge (f : List String) : String :=
 def suiteSort (f : List String) : String :=
   let rs := (f.filter (· != "")).filterMap Aa.decodeRule
   "ok\t" ++ Aa.encodeRules ((Aa.sortRules T rs).map some)
+
+/-- reply: per rule, whether it lies in the domain of the C10 meaning theorem (`Aa.Dom10`) -/
+def suiteDom10 (f : List String) : String :=
+  let rs := (f.filter (· != "")).map Aa.decodeRule
+  "ok\t" ++ String.intercalate ";" (rs.map (fun o => match o with
+    | none => "n"
+    | some r => if decide (Aa.Dom10 T.stringAlphabet r) then "1" else "0"))
+
+/-- reply: per rule, its place in the domain of the C11 sort theorem (`Aa.DomS`): `x` for both values of the
+prefix flag (not a file rule), `t` / `f` for a file rule with / without a known prefix, `0` outside -/
+def suiteDomS (f : List String) : String :=
+  let rs := (f.filter (· != "")).filterMap Aa.decodeRule
+  "ok\t" ++ String.intercalate ";" (rs.map (fun r =>
+    let t := decide (Aa.DomS T true r)
+    let e := decide (Aa.DomS T false r)
+    if t && e then "x" else if t then "t" else if e then "f" else "0"))
 
 def suiteMergeValues (f : List String) : String :=
   match f with
@@ -340,6 +356,8 @@ def main (args : List String) : IO Unit := do
   | ["merge"] => serve suiteMerge
   | ["sort"] => serve suiteSort
   | ["mergevalues"] => serve suiteMergeValues
+  | ["dom10"] => serve suiteDom10
+  | ["doms"] => serve suiteDomS
   | ["cmpstr"] => serve suiteCmpStr
   | ["filterspec"] => serve suiteFilterSpec
   | ["refread"] => serve suiteRefRead
